@@ -80,6 +80,42 @@ pub fn check_one(s: &str, mode: u8) -> Result<Vec<Item>, String> {
     } else {
         parse(s.as_bytes(), 0, html, checks)
     };
+    // sibling entry point: BytesStart::try_get_attribute(name) is documented as the first attribute of
+    // that name in an iteration without duplicate checks, or the first error met before it
+    if tagged && !html {
+        let content = format!("t{}", s);
+        let plain = parse(content.as_bytes(), 1, false, false);
+        let e = BytesStart::from_content(content.as_str(), 1);
+        let mut names: Vec<Vec<u8>> = plain.iter().filter_map(|i| if let Item::Attr { key, .. } = i { Some(key.clone()) } else { None }).collect();
+        names.push(b"zz".to_vec());
+        names.push(Vec::new());
+        names.dedup();
+        for name in names {
+            let mut expect: Result<Option<Item>, Item> = Ok(None);
+            for it in &plain {
+                match it {
+                    Item::Attr { key, .. } if *key == name => {
+                        expect = Ok(Some(it.clone()));
+                        break;
+                    }
+                    Item::Attr { .. } => {}
+                    err => {
+                        expect = Err(err.clone());
+                        break;
+                    }
+                }
+            }
+            let got1 = guarded(|| match e.try_get_attribute(&name) {
+                Ok(Some(a)) => Ok(Some(to_item(Ok(a)))),
+                Ok(None) => Ok(None),
+                Err(err) => Err(to_item(Err(err))),
+            })
+            .map_err(|p| format!("panic in try_get_attribute: {}", p))?;
+            if got1 != expect {
+                return Err(format!("try_get_attribute({:?}) gives {:?}, an iteration without duplicate checks gives {:?}", lossy(&name), got1, expect));
+            }
+        }
+    }
     if got != want {
         let i = (0..got.len().max(want.len())).find(|&i| got.get(i) != want.get(i)).unwrap_or(0);
         return Err(format!(
